@@ -1,5 +1,7 @@
 package graphql
 
+import "sort"
+
 const (
 	// Operations
 	DirectiveLocationQuery              = "QUERY"
@@ -73,7 +75,15 @@ func NewDirective(config DirectiveConfig) *Directive {
 
 	args := []*Argument{}
 
-	for argName, argConfig := range config.Args {
+	// argument order must not depend on map iteration: it is visible in
+	// introspection and in error messages
+	argNames := make([]string, 0, len(config.Args))
+	for argName := range config.Args {
+		argNames = append(argNames, argName)
+	}
+	sort.Strings(argNames)
+	for _, argName := range argNames {
+		argConfig := config.Args[argName]
 		if dir.err = assertValidName(argName); dir.err != nil {
 			return dir
 		}
